@@ -141,7 +141,8 @@ def run(prog, tier):
                     inc_n += 1
                     t_ = rz_.term(st_.value, st_) if isinstance(st_, ast.Assign) else None
                     gname = fn_.args.args[1].arg if len(fn_.args.args) > 1 else "gp"
-                    if t_ is None or str(U(t_)) not in (f"{gname}.y.max()", f"max({gname}.y)", "self.gp.y.max()", "max(self.gp.y)", f"amax({gname}.y)"):
+                    if t_ is None or str(U(t_)) not in (f"{gname}.y.max()", f"max({gname}.y)", "self.gp.y.max()", "max(self.gp.y)", f"amax({gname}.y)",
+                                                          f"np.max({gname}.y)", f"numpy.max({gname}.y)", f"np.amax({gname}.y)", "np.max(self.gp.y)"):
                         inc_bad.append(f"{ci_.name}.{mname_} line {st_.lineno}: `{U(st_)[:80]}`")
     obs.append(struct_ob("refit-order", f"{prog.cls('AcquisitionFunction').module.name}.AcquisitionFunction[incumbent]", not inc_bad and inc_n > 0,
                          "mu_max must be the maximum of the regressor's data wherever it is set: " + "; ".join(inc_bad[:2]), ACQ,
@@ -345,7 +346,7 @@ def run(prog, tier):
     ra = Resolver(ae, prog, c.module, c)
     nx, ny = ae.args.args[1].arg, ae.args.args[2].arg
     l_x = line_of(lambda s_: isinstance(s_, ast.Assign) and U(s_.targets[0]) == "self.x"
-                  and any(pmatch(s_.value, pt_) is not None for pt_ in ("append(self.x, _n, axis=0)", "vstack((self.x, _n))", "vstack([self.x, _n])",
+                  and any(pmatch(s_.value, pt_) is not None for pt_ in ("append(self.x, _n, axis=0)", "append(self.x, _n, 0)", "vstack((self.x, _n))", "vstack([self.x, _n])",
                                                                         "concatenate((self.x, _n))", "concatenate([self.x, _n])", "row_stack((self.x, _n))"))
                   and nx in U(ra.term(s_.value, s_)))
     l_y = line_of(lambda s_: isinstance(s_, ast.Assign) and U(s_.targets[0]) == "self.y"
@@ -394,7 +395,8 @@ def run(prog, tier):
     ru = Resolver(ug, prog, ac.module, ac, inline_self=True)
     at_ = {U(s_.targets[0]): ru.term(s_.value, s_) for s_ in ug.body if isinstance(s_, ast.Assign) and len(s_.targets) == 1}
     oku = (U(at_.get("self.gp")) == g if "self.gp" in at_ else False) and "self.mu_max" in at_ \
-        and any(pmatch(at_["self.mu_max"], pt) is not None for pt in (f"{g}.y.max()", f"max({g}.y)", f"amax({g}.y)", f"{g}.y[{g}.y.argmax()]"))
+        and any(pmatch(at_["self.mu_max"], pt) is not None for pt in (f"{g}.y.max()", f"max({g}.y)", f"amax({g}.y)", f"{g}.y[{g}.y.argmax()]",
+                                                                     f"np.max({g}.y)", f"numpy.max({g}.y)", f"np.amax({g}.y)"))
     obs.append(struct_ob("refit-order", qual(ac, ug), oku,
                          f"update_gp must install the regressor and set the incumbent to the maximum of its data: "
                          f"{ {k: str(U(v)) for k, v in at_.items()} }", ACQ, ug.lineno))
